@@ -57,6 +57,15 @@ class C13(SCheck):
                 ops.append(gen.l_op(p, "$ROOT/out/cy%da" % i))
             else:
                 ops.append(gen.l_op(p, "$ROOT/src" if not p.startswith("src/d/") else "$ROOT/src/d"))
+        if r.random() < 0.3:
+            # link targets on another file system (a second tmpfs mounted inside the sandbox)
+            ops += [gen.mount_op("vol"), gen.d_op("vol/xdir"), gen.f_op("vol/xdir/inner", 55, pat=8), gen.d_op("vol/xdir/sub"), gen.f_op("vol/xdir/sub/z", 9, pat=9),
+                    gen.f_op("vol/xfile", 1234, pat=10)]
+            ops.append(gen.l_op("src/xd", "$ROOT/vol/xdir"))
+            ops.append(gen.l_op("src/d/xf", "$ROOT/vol/xfile"))
+            if r.random() < 0.5:
+                ops.append(gen.l_op("out/via", "$ROOT/vol/xdir"))
+                ops.append(gen.l_op("src/xchain", "$ROOT/out/via"))
         top = r.random() < 0.2
         flags = {"r": True, "L": True}
         if top:
